@@ -487,7 +487,19 @@ let run_case (x : sx) : unit =
               List.iter (fun sw ->
                   let sws = { sw_coalesce = sw land 1 <> 0; sw_shake = sw land 2 <> 0;
                               sw_rewrite = sw land 4 <> 0; sw_matrix = sw land 8 <> 0 } in
-                  let cls = known_classes o (fun k -> k) sws r.r_det in
+                  let raw =
+                    match untag y with
+                    | YMap kv ->
+                        (match List.find_opt (fun (k, _) -> k = YStr (str_of_ascii "detection")) kv with
+                         | Some (_, d) ->
+                             (match untag d with
+                              | YMap dkv -> List.filter_map (fun (k, v) -> match untag k with YStr s -> Some (s, v) | _ -> None) dkv
+                              | _ -> [])
+                         | None -> [])
+                    | _ -> [] in
+                  let cls = known_classes o (fun k -> k) sws r.r_det
+                            @ (if known_d10 r.r_det then [n_of_int 10] else [])
+                            @ (if known_d24 raw r.r_det then [n_of_int 24] else []) in
                   Buffer.add_string kb (Printf.sprintf " (%d" sw);
                   List.iter (fun c -> Buffer.add_string kb (Printf.sprintf " %d" (int_of_n c))) cls;
                   Buffer.add_string kb ")") sws;
